@@ -20,7 +20,7 @@ from vlib.gen import rdata as R
 
 MSG_TYPES = [t for t in R.ZONE_TYPES]
 # types whose RDATA the renderer may compress / that carry names: over-sampled
-NAMEY = ["NS", "CNAME", "PTR", "MX", "SOA", "SRV", "NAPTR", "RRSIG", "NSEC", "DNAME", "RP", "KX", "AFSDB", "RT", "PX", "LP", "SVCB", "HIP"]
+NAMEY = ["NS", "CNAME", "PTR", "MX", "SOA", "SRV", "NAPTR", "RRSIG", "SIG", "NSEC", "DNAME", "RP", "KX", "AFSDB", "RT", "PX", "LP", "SVCB", "HIP"]
 PLAIN = ["A", "AAAA", "TXT", "DS", "DNSKEY", "CAA", "HINFO", "TLSA"]
 
 
@@ -32,10 +32,14 @@ def owner(draw, pool, origin):
 
 
 @st.composite
-def rrset(draw, pool, origin, big=False):
+def rrset(draw, pool, origin, big=False, twin_of=None):
     tname = draw(st.one_of(st.sampled_from(NAMEY), st.sampled_from(PLAIN), st.sampled_from(MSG_TYPES)))
     if big:
         tname = "TXT"
+    if twin_of is not None:
+        # a second signature RRset at the same owner (same spelling or a case variant) that covers
+        # another type: same (name, class, type), distinct only by the covered type
+        tname = twin_of["type"]
     ctx = {"pool": pool}
     if origin is not None:
         ctx["origin"] = origin
@@ -57,14 +61,24 @@ def rrset(draw, pool, origin, big=False):
             # one covered type per rrset
             if covers is None:
                 covers = w[:4]
+                if twin_of is not None and twin_of["rdatas"]:
+                    other = int(twin_of["rdatas"][0][:4], 16)
+                    mine = draw(st.sampled_from([1, 2, 5, 6, 15, 16, 28, 46, 47, 48, 255, 65534]))
+                    if mine == other:
+                        mine = 1 if other != 1 else 2
+                    covers = "%04x" % mine
             w = covers + w[4:]
         if w in seen:
             continue
         seen.add(w)
         rdatas.append(w)
     ttl = draw(st.one_of(st.sampled_from([0, 1, 300, 86400, 2**31 - 1]), st.integers(0, 2**31 - 1)))
+    if twin_of is not None:
+        oname = G.hexl([G.flip_case(draw, l) for l in G.unhexl(twin_of["name"])])
+    else:
+        oname = G.hexl(draw(owner(pool, origin)))
     return {
-        "name": G.hexl(draw(owner(pool, origin))),
+        "name": oname,
         "rdclass": 1,
         "type": tname,
         "rdtype": R.TYPECODES[tname],
@@ -154,6 +168,12 @@ def message(draw, allow_update=True, big_ok=True, sections_max=3):
                     continue
                 keys.add(key)
                 sec.append(rs)
+                if rs["type"] in ("RRSIG", "SIG") and rs["rdatas"] and draw(st.booleans()):
+                    tw = draw(rrset(pool, origin, twin_of=rs))
+                    key = (tuple(l.lower() for l in tw["name"]), tw["rdtype"], tw["rdatas"][0][:4] if tw["rdatas"] else "")
+                    if key not in keys:
+                        keys.add(key)
+                        sec.append(tw)
             secs.append(sec)
         desc["sections"] = secs
     desc["edns"] = draw(edns())
